@@ -330,6 +330,23 @@ func ruleDetectVocabulary(c *Ctx) {
 		}
 		return true
 	})
+	// by role: the variable handed to the message builder as the detect name
+	if mk := c.Func("internal/server", "", "makemsg"); mk != nil {
+		if di := makemsgDetectIndex(c, mk); di >= 0 {
+			ast.Inspect(fm.Decl.Body, func(n ast.Node) bool {
+				call, ok := n.(*ast.CallExpr)
+				if !ok || callee(info, call) != mk.Obj || di >= len(call.Args) {
+					return true
+				}
+				if id, ok := ast.Unparen(call.Args[di]).(*ast.Ident); ok {
+					if _, isVar := info.ObjectOf(id).(*types.Var); isVar {
+						detectObj = info.ObjectOf(id)
+					}
+				}
+				return true
+			})
+		}
+	}
 	if detectObj == nil {
 		c.und("detect-variable", fm.Decl.Pos(), "the detect variable of fenceMatch not found")
 		return
